@@ -150,6 +150,14 @@ example : serve { full with gzip := false, errors := none, templates := false, h
       (.panicAfter (some 200) [1]) =
     { commits := 2, status := 200, body := [(.inner [1], false), (.errText 500, false)] } := by decide
 
+/-- non-vacuity: the contract hypothesis `Inner.ok` admits every kind of behaviour, and excludes
+exactly the contract violations named in docs/C12.md -/
+example : Inner.ok (.ret 404 true) = true ∧ Inner.ok (.ret 0 false) = true ∧ Inner.ok (.ret 301 false) = true ∧
+    Inner.ok (.write (some 201) [104, 105] true) = true ∧ Inner.ok (.write none [1] false) = true ∧
+    Inner.ok .panicBefore = true ∧ Inner.ok (.panicAfter (some 500) [1]) = true ∧
+    Inner.ok (.ret 0 true) = false ∧ Inner.ok (.ret 200 true) = false ∧ Inner.ok (.write (some 7) [1] false) = false := by
+  decide
+
 /-- test: the judge rejects a dropped body, a doubled commit and a wrong error page -/
 example : good none (.write (some 200) [1] true) { commits := 0, status := 0, body := [] } = false ∧
     good none (.write (some 200) [1] false) { commits := 2, status := 200, body := [(.inner [1], false)] } = false ∧
